@@ -43,7 +43,7 @@ fn histex_part(run: &mut Run, tier: &str, plans: &[HxPlan], owned: &[&str], note
     run.set("histex_rule", json!(note));
     run.assume("the library's own RNG is not controlled: compared outcomes (Ok/Err, Some/None, equality of secrets, decoded shapes) do not depend on random values");
     run.assume("128-bit tag / scalar collisions are treated as impossible");
-    if trans == 0 {
+    if trans == 0 && run.violations.is_empty() {
         machinery("no transition explored");
     }
 }
